@@ -39,6 +39,15 @@ package server
 //@   at-call table.DiscardAs4Attrs( requires !h.fsm.twoByteAsTrans
 //@   at-call table.DiscardAs4Attrs( requires handling == bgp.ERROR_HANDLING_NONE || handling == bgp.ERROR_HANDLING_ATTRIBUTE_DISCARD ==> called(ValidateUpdateMsg)
 
+// from C07: "administrative disable/shutdown/reset, prefix-limit overrun ... yields the NOTIFICATION code/subcode and
+// next state the RFCs prescribe": an administrative event in Established that makes us send a NOTIFICATION ends the
+// Established state in the same step (RFC 4271 8.2.2: the session goes to Idle) - the wait loop is not re-entered,
+// where the read failure on the connection we closed ourselves would be taken for a loss of the peer
+//@ props C07
+//@ func (*fsmHandler).established
+//@   claims step
+//@   loop 0 step called(changeadminState) ==> !called(sendNotification)
+
 // =============================================================================================
 // C08 — session parameters are negotiated as the intersection of both OPEN messages
 // =============================================================================================
